@@ -199,8 +199,30 @@ def check_candidate(ctx, s):
     ctx.raises("relative_minor/invalid-key", (NoteFormatError,), keys.relative_minor, s)
     if s != "":
         ctx.raises("Key/invalid-key", (NoteFormatError,), keys.Key, s)
+    # diatonic steps in an unknown key: rejected, also when asked again and right after a valid question
+    for i, fname in enumerate(STEP_FUNCTIONS):
+        f = getattr(intervals, fname)
+        if i % 2 == 0:
+            ctx.ok(fname, f, "E", "D")
+        ctx.raises(fname + "/invalid-key", (NoteFormatError,), f, "E", s)
+        ctx.raises(fname + "/invalid-key/asked-again", (NoteFormatError,), f, "E", s)
+        ctx.raises(fname + "/invalid-key/asked-again", (NoteFormatError,), f, "F#", s)
+    ctx.raises("interval/invalid-key", (NoteFormatError,), intervals.interval, s, "E", 2)
+    ctx.raises("interval/invalid-key/asked-again", (NoteFormatError,), intervals.interval, s, "E", 2)
     near = any(_one_edit(s, k) for k in T.ALL_KEYS)
     ctx.note_case(near, ["candidate:near-miss" if near else "candidate:far"])
+
+
+def _confusable(note, key):
+    """other (note, key) pairs with the same concatenation note + key or key + note"""
+    out = []
+    for whole, note_first in ((note + key, True), (key + note, False)):
+        for i in range(1, len(whole)):
+            a, b = whole[:i], whole[i:]
+            n2, k2 = (a, b) if note_first else (b, a)
+            if (n2, k2) != (note, key) and T.valid(n2) and k2 in T.KEY_SIG and (n2, k2) not in out:
+                out.append((n2, k2))
+    return out
 
 
 # ---- diatonic steps -----------------------------------------------------------------------------------------
@@ -209,6 +231,22 @@ def check_diatonic(ctx, case):
     letter = T.letter_up(note[0], step)
     expected = [x for x in T.key_notes(key) if x[0] == letter][0]
     fname = STEP_FUNCTIONS[step - 1]
+    # questions whose note and key, written one after the other, read the same as this one's ('C' in 'bb' / 'Cb' in 'b') are
+    # asked first: the answer must not depend on them
+    for n2, k2 in _confusable(note, key):
+        try:
+            getattr(intervals, fname)(n2, k2)
+            intervals.interval(k2, n2, step)
+        except Exception:  # noqa - judged in that pair's own case
+            pass
+        r = ctx.ok(fname, getattr(intervals, fname), note, key)
+        if not failed(r):
+            ctx.check(r == expected, fname + "/value-after-confusable-question",
+                      lambda: "%s(%r, %r) asked right after (%r, %r) -> %r, expected %r" % (fname, note, key, n2, k2, r, expected))
+        r = ctx.ok("interval", intervals.interval, key, note, step)
+        if not failed(r):
+            ctx.check(r == expected, "interval/value-after-confusable-question",
+                      lambda: "interval(%r, %r, %d) asked right after (%r, %r) -> %r, expected %r" % (key, note, step, k2, n2, r, expected))
     r = _cold_warm(ctx, fname, getattr(intervals, fname), note, key)
     if not failed(r):
         ctx.check(r == expected, fname + "/value", lambda: "%s(%r, %r) -> %r, expected %r" % (fname, note, key, r, expected))
